@@ -1358,6 +1358,15 @@ fn main() {
             (g(3), Cons::PeekOps("pqnbnnn".chars().collect())),
             (Pipe::Keep("tt", bx(Pipe::Src(Src::Obj(ints(2))))), Cons::PeekOps("pqbnpnn".chars().collect())),
             (Pipe::Take(2, bx(g(3))), Cons::PeekCopy("pq".chars().collect(), peek_copy_post(true))),
+            // operand order of sum / product / min / max (seeded C13-mut6): the accumulator is the left operand
+            (Pipe::Src(Src::Tuple(elems(1, 3, 10))), Cons::SumInit(V::S(">".into()))),
+            (Pipe::Src(Src::Tuple(elems(4, 3, 10))), Cons::SumInit(V::L(vec![]))),
+            (Pipe::Src(Src::Tuple(elems(5, 3, 10))), Cons::SumInit(V::T(vec![V::I(9)]))),
+            (g(3), Cons::SumInit(V::B(Box::new(V::I(0))))),
+            (g(2), Cons::ProductInit(V::B(Box::new(V::I(1))))),
+            (Pipe::Src(Src::List(elems(6, 4, 10))), Cons::Simple("minmax")),
+            (Pipe::Src(Src::List(elems(6, 4, 10))), Cons::Simple("max")),
+            (g(3), Cons::Simple("foldpair")),
             // host bytes from the back (F-C13-1, fixed) and a copied peekable (F-C13-2, fixed)
             (Pipe::Reversed(bx(Pipe::Src(Src::HostBytes(3)))), Cons::Simple("tolist")),
             (Pipe::Peekable(bx(g(3))), Cons::Copy(1, true)),
